@@ -7,6 +7,7 @@ import (
 	"encoding/json"
 	"errors"
 	"fmt"
+	"net/url"
 	"runtime"
 	"runtime/debug"
 	"sort"
@@ -54,6 +55,8 @@ type rdef struct {
 	// ('/' separates)
 	hostGlob string
 	ppGlob   string
+	// allow_encoded_slashes of the rule ("" = off); decides how a captured value is decoded before path_params look at it
+	slashes string
 }
 
 var bTrue = true
@@ -83,6 +86,9 @@ var versions = map[string]map[string][]rdef{
 		"vf": {{id: "s1", path: "/m", methods: nil, bt: false, twoRoutes: false}},
 		// a host glob with the very same text as the path_params glob of B's w8
 		"vg": {{id: "r1", path: "/g", hostGlob: "s-*"}},
+		// two versions that differ in nothing but allow_encoded_slashes (an update between them must take effect)
+		"vh": {{id: "r1", path: "/e/:n", ppGlob: "s*x", slashes: "no_decode"}},
+		"vi": {{id: "r1", path: "/e/:n", ppGlob: "s*x", slashes: "on"}},
 	},
 	"B": {
 		"w1": {{id: "q1", path: "/z", methods: nil, bt: false, twoRoutes: false}},
@@ -98,13 +104,15 @@ var versions = map[string]map[string][]rdef{
 }
 
 var verOrder = map[string][]string{
-	"A": {"v1", "v2", "v3", "v4", "v5", "v6", "v7", "v8", "v9", "va", "vb", "vc", "vd", "ve", "vf", "vg"},
+	"A": {"v1", "v2", "v3", "v4", "v5", "v6", "v7", "v8", "v9", "va", "vb", "vc", "vd", "ve", "vf", "vg", "vh", "vi"},
 	"B": {"w1", "w2", "w3", "w4", "w5", "w6", "w7", "w8"},
 }
 
 var probePaths = []string{"/x", "/y", "/z", "/zz", "/x/1", "/x/1/2", "/z/1", "/o", "/xy", "/w/1", "/w/1/foo", "/d/v", "/d/o", "/x/k", "/m",
 	// "<host>|<path>": a probe with another host than the default "h"
-	"/f/s-a.b", "/f/t", "s-a.b|/g", "s-a|/g"}
+	"/f/s-a.b", "/f/t", "s-a.b|/g", "s-a|/g",
+	// an encoded slash inside a captured value: kept as %2F under no_decode (the glob s*x holds), a real slash under on
+	"/e/s%2Fx", "/e/sx"}
 
 func ruleSet(src, ver string) *rulecfg.RuleSet {
 	rs := &rulecfg.RuleSet{Version: rulecfg.CurrentRuleSetVersion, Name: ver}
@@ -124,6 +132,8 @@ func ruleSet(src, ver string) *rulecfg.RuleSet {
 		if d.hostGlob != "" {
 			r.Matcher.Hosts = []rulecfg.HostMatcher{{Type: "glob", Value: d.hostGlob}}
 		}
+
+		r.EncodedSlashesHandling = rulecfg.EncodedSlashesHandling(d.slashes)
 
 		r.Execute = []config.MechanismConfig{{"authenticator": "anon"}}
 		rs.Rules = append(rs.Rules, r)
@@ -286,6 +296,21 @@ func lastCapture(expr, path string) string {
 	return ""
 }
 
+// decodeCapture: what path_params see for a captured raw segment under the rule's allow_encoded_slashes setting
+func decodeCapture(raw, slashes string) string {
+	if slashes == "on" {
+		v, _ := url.PathUnescape(raw)
+
+		return v
+	}
+
+	const marker = "\x00SLASH\x00"
+
+	v, _ := url.PathUnescape(strings.NewReplacer("%2F", marker, "%2f", marker).Replace(raw))
+
+	return strings.ReplaceAll(v, marker, "%2F")
+}
+
 func model(cur map[string]string) []string {
 	type mr struct {
 		d   rdef
@@ -323,7 +348,7 @@ func model(cur map[string]string) []string {
 				t = t && (r.d.hostGlob == "" || globMatch(r.d.hostGlob, host, '.'))
 
 				if exprs[i].Matches(path) {
-					v := lastCapture(r.d.path, path)
+					v := decodeCapture(lastCapture(r.d.path, path), r.d.slashes)
 
 					if r.d.ppGlob != "" {
 						t = t && globMatch(r.d.ppGlob, v, '/')
@@ -602,11 +627,11 @@ func Check() *engine.Check {
 	return &engine.Check{
 		ID:    "C06",
 		Level: "model_checking",
-		Rule: "explicit-state BFS over histories of add/update/delete on two sources (A: 16 versions incl. changed, reordered, removed, " +
+		Rule: "explicit-state BFS over histories of add/update/delete on two sources (A: 18 versions incl. changed, reordered, removed, " +
 			"added rules, flipped backtracking, different node kinds, one invalid expression, one colliding with B; B: 8 versions incl. a collision " +
 			"with A and wildcard/catch-all sets) executed on the real rule-set processor + rule factory + repository; a state is de-duplicated by " +
 			"(current version per source, knownRules order, full structural dump of the radix tree incl. value order and backtracking flags); in " +
-			"every state 38 probe requests are compared with a fresh instance loaded once with the current versions (both source orders) and with a reference matcher over the current versions (the documented semantics: the differential oracle cannot see state that outlives an instance); after a " +
+			"every state 42 probe requests are compared with a fresh instance loaded once with the current versions (both source orders) and with a reference matcher over the current versions (the documented semantics: the differential oracle cannot see state that outlives an instance); after a " +
 			"rejected operation the structural dump and all probes must be unchanged.",
 		Assumptions: []string{
 			"mechanisms are scripted (always succeed); only matching is observed",
